@@ -131,7 +131,9 @@ def gen_mul(rng):
     need = nl(x) + nl(y)
     w = sgnd(rng, special(rng, rng.randrange(1, 4)))
     # an aliased destination with room for the product (temporary-copy path) or without (free_me path)
-    def big(v): return "%x %s" % (rng.choice([max(nl(v), 1), need - 1 if need - 1 >= max(nl(v), 1) else need, need, need + 2, max(nl(v), 1) + 1]), hx(v))
+    def big(v):
+        n = max(nl(v), 1)
+        return "%x %s" % (max(n, rng.choice([n, need - 1, need, need + 2, n + 1])), hx(v))
     return "as4_mul %x %s %s %s" % (m, obj(rng, w, need), big(x), big(y))
 
 def gen_ops(rng, tier, ctx=None):
